@@ -158,14 +158,25 @@ def fresh(x, as_bytearray=False):
     return x
 
 
-def b_filter(f):
+def b_filter(f, share=None):
+    """share: a dict - equal sub-trees become ONE object referenced from several places (an application that builds a
+    clause once and uses it in two branches); None: every node is its own object."""
+    if share is not None:
+        if f in share:
+            return share[f]
+        obj = share[f] = _b_filter(f, share)
+        return obj
+    return _b_filter(f, None)
+
+
+def _b_filter(f, share):
     k = f[0]
     if k == "and":
-        return sl.FilterAnd([b_filter(x) for x in f[1]])
+        return sl.FilterAnd([b_filter(x, share) for x in f[1]])
     if k == "or":
-        return sl.FilterOr([b_filter(x) for x in f[1]])
+        return sl.FilterOr([b_filter(x, share) for x in f[1]])
     if k == "not":
-        return sl.FilterNot(b_filter(f[1]))
+        return sl.FilterNot(b_filter(f[1], share))
     if k == "eq":
         return sl.FilterEquality(f[1], f[2])
     if k == "ge":
@@ -211,7 +222,7 @@ def build(a):
             size_limit=body[3],
             time_limit=body[4],
             types_only=body[5],
-            filter=b_filter(body[6]),
+            filter=b_filter(body[6], {} if (isinstance(mid, int) and mid % 3 == 0) else None),
             attributes=list(body[7]),
             **kw,
         )
